@@ -24,6 +24,7 @@ func c39exactValue(s string) (*big.Rat, bool) {
 func TestVerifC39Bounded(t *testing.T) {
 	thorough := os.Getenv("VERIF_TIER") == "thorough"
 	evals := 0
+	vals := map[uint64]bool{} // distinct finite non-zero binary64 values among the expected answers
 	fails := map[string]int{}
 	var samples []string
 	fail := func(kind, format string, a ...any) {
@@ -40,6 +41,9 @@ func TestVerifC39Bounded(t *testing.T) {
 		want, err := strconv.ParseFloat(s, 64)
 		if err != nil && !math.IsInf(want, 0) {
 			return
+		}
+		if want != 0 && !math.IsInf(want, 0) {
+			vals[math.Float64bits(want)] = true
 		}
 		d, perr := z.Parse(s)
 		if perr != nil {
@@ -95,5 +99,5 @@ func TestVerifC39Bounded(t *testing.T) {
 	for _, s := range samples {
 		ss = append(ss, fmt.Sprintf("%q", s))
 	}
-	fmt.Printf("BOUNDED: {\"evaluations\":%d,\"distinct\":%d,\"rule\":%q,\"exhaustive\":true,\"bound\":\"mantissa <= %d, exponent -345..320\",\"samples\":[%s]}\n", evals, evals, rule, maxM, strings.Join(ss, ","))
+	fmt.Printf("BOUNDED: {\"evaluations\":%d,\"distinct\":%d,\"rule\":%q,\"exhaustive\":true,\"bound\":\"mantissa <= %d, exponent -345..320\",\"samples\":[%s]}\n", evals, len(vals), rule+"; distinct_nontrivial counts the distinct finite non-zero binary64 values among the expected results (numerals such as 10e1 and 1e2 count once; zero and overflow count as trivial)", maxM, strings.Join(ss, ","))
 }
